@@ -86,7 +86,8 @@ theorem C18_ntt_scratch_extents (size ncols nblock : Nat) (hc : 0 < ncols) :
   intro ib _
   show ncols / nb + (if ib < ncols % nb then 1 else 0) ≤ ncols / nb + (if ncols % nb > 0 then 1 else 0)
   split
-  · rename_i h; rw [if_pos (by omega)]; exact Nat.le_refl _
+  · rename_i h; rw [if_pos (by omega)]
+    all_goals exact Nat.le_refl _   -- (with more of Mathlib imported `rw` closes `a ≤ a` itself)
   · omega
 
 /-- wrappers: nothing outside the designated output positions is written (C17), parcpy writes exactly [0, size) -/
